@@ -4,7 +4,7 @@ from __future__ import annotations
 import math
 from fractions import Fraction as F
 
-from .. import core, oracle, rulegen, rules, ruleprops
+from .. import core, history, oracle, rulegen, rules, ruleprops
 from ..core import Case
 from ..ruleprops import violation
 
@@ -96,6 +96,7 @@ def pairs(ctx, n, btypes=("app", "app", "card", "cum", "ord")):
 def run(ctx):
     ctx.rule = RULE
     items = ruleprops.run_items(ctx, pairs(ctx, ctx.scale(3000, 30000)), predicate, nontrivial)
+    history.run_history(ctx, "mes", ctx.scale(300, 3000))
     ctx.extra["capped_runs"] = sum(1 for it in items if getattr(it, "capped", False))
     ctx.extra["binary_sat"] = {str(k): sum(1 for it in items if it.cfg.get("binary") == k) for k in (None, True, False)}
 
@@ -106,6 +107,8 @@ def search(ctx, disagreements):
 
 
 def replay(payload):
+    if payload.get("cfg", {}).get("history"):
+        return history.replay(payload)
     case = Case.from_json(payload["case"])
     cfg = ruleprops.cfg_from_json(payload["cfg"])
     built = rules.Built(case, multi=cfg.get("multi", False))
